@@ -71,6 +71,11 @@ private:
     chrono::month_day_last _mdl;
 };
 
+[[nodiscard]] constexpr auto operator==(year_month_day_last const& lhs, year_month_day_last const& rhs) noexcept -> bool
+{
+    return lhs.year() == rhs.year() and lhs.month_day_last() == rhs.month_day_last();
+}
+
 [[nodiscard]] constexpr auto operator+(chrono::year_month_day_last const& lhs, chrono::months const& rhs) noexcept
     -> chrono::year_month_day_last
 {
